@@ -23,6 +23,7 @@ type Clause struct {
 type LoopSpec struct {
 	Invariants []Clause
 	Decreases  *Clause
+	Steps      []Clause // transition obligations: checked at every back edge, never assumed; prev(x) = value at loop head
 }
 
 type SiteSpec struct {
@@ -457,7 +458,7 @@ func (cs *ContractSet) parseContractText(file, pkgPath, text string) {
 				continue
 			}
 			cur.Ensures = append(cur.Ensures, cl)
-		case "loop", "invariant", "decreases":
+		case "loop", "invariant", "decreases", "step":
 			k := lastLoop
 			w2, r2 := word, rest
 			if word == "loop" {
@@ -491,6 +492,8 @@ func (cs *ContractSet) parseContractText(file, pkgPath, text string) {
 			case "decreases":
 				c := cl
 				ls.Decreases = &c
+			case "step":
+				ls.Steps = append(ls.Steps, cl)
 			default:
 				fail(ln, "unknown loop clause %q", w2)
 			}
